@@ -679,10 +679,14 @@ def check_generator(ctx):
     fsm = ctx.the_fsm(ir)
     # what drives bits 0..15 of the output word, and bits 0..3 of that -- whether written slice by slice or through Cat()
     lob = [(a, ex) for a, ex in q.bits_drivers(ir, 'self.source.payload', 0, 16) if ex is not None and ex.op != 'const']
-    ctx.need(len(lob) == 1 and lob[0][1].op == 'sig' and lob[0][0].state is not None, 'the link command word driver')
+    ctx.need(len(lob) == 1 and lob[0][0].state is not None, 'the link command word driver')
     lo = [lob[0][0]]
-    W, st = lob[0][1].canon(), q.state_of(lo[0])
-    subb = [(a, ex) for a, ex in q.bits_drivers(ir, W, 0, 4) if ex is not None]
+    st = q.state_of(lo[0])
+    if lob[0][1].op == 'sig':
+        W = lob[0][1].canon()                      # a named command word, assembled separately
+        subb = [(a, ex) for a, ex in q.bits_drivers(ir, W, 0, 4) if ex is not None]
+    else:                                          # the word is assembled in place
+        subb = [(a, ex) for a, ex in q.bits_drivers(ir, 'self.source.payload', 0, 4) if ex is not None and a is lo[0]]
     sub = [a for a, _ in subb]
     ok = len(subb) == 1 and not sub[0].guard and subb[0][1].op == 'sig'
     src = subb[0][1].canon() if ok else None
